@@ -447,7 +447,8 @@ fn star_etc(t: &mut T, a: &Args) {
         t.expect("Star", &format!("Star write_raw {:#x} {:#x}", sc, sr), &ev, &[wr(MSR_STAR, (sc as u64) << 48 | (sr as u64) << 32)]);
     }
     // typed write: selector quadruples around the +-8/+-16 and RPL rules
-    let bases: Vec<u16> = vec![0x08, 0x10, 0x18, 0x20, 0x28, 0x30, 0xfff0, 0x1000];
+    // incl. selectors with the table-indicator bit (bit 2) set
+    let bases: Vec<u16> = vec![0x08, 0x10, 0x18, 0x20, 0x28, 0x30, 0xfff0, 0x1000, 0x24, 0x2c, 0xffe4, 0x0c];
     for &sysret_base in &bases {
         for &syscall in &bases {
             for d_cs in [0i32, 8, 16, 24] {
